@@ -374,9 +374,43 @@ def run_axis(case, ctx):
     ctx.cls('loop_axis_keyword')
 
 
+def run_retry(case, ctx):
+    """try_value built with repeat=k: f is tried up to k+1 times; the fallback comes back exactly when every attempt raised
+    (with return_value=False the last exception is let through instead)"""
+    from pyg_base import try_value, try_none, try_zero
+    k, j, rv = case['repeat'], case['fails'], case['return_value']
+    calls = []
+
+    def flaky(a, b=2):
+        calls.append((a, b))
+        if len(calls) <= j:
+            raise ValueError('attempt %d fails' % len(calls))
+        return ('ok', a, b)
+    fallback = case['value']
+    if case['form'] == 'ctor':
+        w = try_value(flaky, repeat=k, sleep=0, return_value=rv, value=fallback)
+    else:
+        w = try_value(repeat=k, return_value=rv, value=fallback)(flaky)
+    st, got = ctx.call(w, 1, b=3)
+    if j <= k:
+        ok = st == 'ok' and got == ('ok', 1, 3) and len(calls) == j + 1
+    elif rv:
+        ok = st == 'ok' and got == fallback and type(got) is type(fallback) and len(calls) == k + 1 and (not isinstance(fallback, list) or got is not fallback)
+    else:
+        ok = st == 'exc' and isinstance(got, ValueError) and len(calls) == k + 1
+    ctx.check('try_fallback_iff_raises', ok and all(c == (1, 3) for c in calls),
+              lambda: 'try_value(f, repeat=%d, return_value=%r, value=%r) on an f whose first %d calls raise: %s %r after %d calls of f (expected %s after %d)' % (
+                  k, rv, fallback, j, st, got, len(calls), "f's value" if j <= k else ('the fallback' if rv else "f's exception"), min(j, k) + 1))
+    ctx.cls('try_value_repeat')
+    if j:
+        ctx.mark_nontrivial(case)
+
+
 def run_case(case, ctx):
     if case['kind'] == 'axis':
         return run_axis(case, ctx)
+    if case['kind'] == 'retry':
+        return run_retry(case, ctx)
     if case['kind'] == 'exc':
         return run_exc(case, ctx)
     return run_cache(case, ctx) if case['kind'] == 'cache' else run_sig(case, ctx)
@@ -442,6 +476,13 @@ def run(spec, ctx):
             for a_ in (1, 'x', None, 2.5):
                 for ax in (0, 1, 'rows'):
                     case = {'kind': 'axis', 'types': types, 'by': by, 'a': a_, 'axis': ax}
+                    ctx.case(case)
+                    ctx.run_case(case, run_case)
+    for k_ in (0, 1, 2, 4):
+        for j_ in (0, 1, 2, 3, 5, 6):
+            for rv in (True, False):
+                for form in ('ctor', 'factory'):
+                    case = {'kind': 'retry', 'repeat': k_, 'fails': j_, 'return_value': rv, 'form': form, 'value': rng.choice([None, 0, -1, [], 'n/a'])}
                     ctx.case(case)
                     ctx.run_case(case, run_case)
     for exc in ('idx', ['idx'], ['idx', 'other']):
